@@ -27,8 +27,10 @@ class Normalizer:
     def __init__(self, model: Model, func: FuncInfo, cfg: CFG,
                  param_map: t.Optional[t.Dict[str, str]] = None,
                  name_hook: t.Optional[t.Callable[[str, Node], t.Optional[str]]] = None,
-                 inline_unique_methods: bool = True):
+                 inline_unique_methods: bool = True,
+                 func_hook: t.Optional[t.Callable[[FuncInfo, t.Dict[str, str]], FuncInfo]] = None):
         self.model = model
+        self.func_hook = func_hook    # lets a rule substitute a specialised body when a helper is inlined
         self.func = func
         self.cfg = cfg
         self.rd = cfg.reaching()
@@ -46,6 +48,10 @@ class Normalizer:
             pm[p] = 'VAL' if i == 0 and is_method and func.name != '__init__' else f'${p}'
         if param_map:
             pm.update(param_map)
+        elif is_method and func.name.startswith('_') and not func.name.startswith('__') and rest:
+            ctx = _context_params(model, func, rest)
+            if ctx:
+                pm.update(ctx)
         self.param_map = pm
         self._const_cache: t.Dict[str, t.Optional[str]] = {}
         self._visiting: t.Set[int] = set()
@@ -253,6 +259,12 @@ class Normalizer:
             if isinstance(inner, ast.Call) and isinstance(inner.func, ast.Name) and inner.func.id == 'iter' and inner.args:
                 return self.iter_elem(inner.args[0], tuple(p), node, {}, depth)
         base = self.expr(cur, node, None, depth)
+        # a helper that returns a tuple display was inlined: project textually
+        while p:
+            parts = _split_tuple_text(base)
+            if parts is None or not (0 <= p[0] < len(parts)):
+                break
+            base = parts[p.pop(0)]
         return base + ''.join(f".{i}" for i in p)
 
     def iter_elem(self, it: t.Optional[ast.AST], path: t.Tuple[int, ...], node: Node,
@@ -435,6 +447,10 @@ class Normalizer:
                     continue
                 if isinstance(st, ast.If) and simple(st.body) and simple(st.orelse):
                     continue
+                if isinstance(st, ast.Assign) and len(st.targets) == 1 and isinstance(st.targets[0], ast.Name):
+                    continue
+                if isinstance(st, ast.AnnAssign) and isinstance(st.target, ast.Name) and st.value is not None:
+                    continue
                 return False
             return True
         if not simple(f.node.body):  # type: ignore[union-attr]
@@ -472,6 +488,10 @@ class Normalizer:
                     continue
                 if isinstance(st, ast.If) and simple(st.body) and simple(st.orelse):
                     continue
+                if isinstance(st, ast.Assign) and len(st.targets) == 1 and isinstance(st.targets[0], ast.Name):
+                    continue
+                if isinstance(st, ast.AnnAssign) and isinstance(st.target, ast.Name) and st.value is not None:
+                    continue
                 return False
             return True
         if not simple(f.node.body):
@@ -480,10 +500,9 @@ class Normalizer:
         if not rets or len(rets) > 4:
             return None
         # no calls to sub-converters / opaque callables hidden inside: only pure expression helpers
-        for rt in rets:
-            for c in ast.walk(rt.value):
-                if isinstance(c, ast.Call) and isinstance(c.func, ast.Attribute) and c.func.attr in ('try_convert', 'collect_errors', 'convert'):
-                    return None
+        for c in ast.walk(f.node):
+            if isinstance(c, ast.Call) and isinstance(c.func, ast.Attribute) and c.func.attr in ('try_convert', 'collect_errors', 'convert'):
+                return None
         params = f.params
         is_static = any(isinstance(d, ast.Name) and d.id == 'staticmethod' for d in f.decorators)
         pm: t.Dict[str, str] = {}
@@ -495,10 +514,15 @@ class Normalizer:
         for p_, a in zip(params, args):
             pm[p_] = a
         from .cfg import cfg_of
-        sub_cfg = cfg_of(self.model, f)
-        sub = Normalizer(self.model, f, sub_cfg, param_map=pm, inline_unique_methods=self.inline_unique_methods)
+        if self.func_hook is not None:
+            f2 = self.func_hook(f, pm)
+            sub_cfg = cfg_of(self.model, f) if f2 is f else CFG(self.model, f2)
+            f = f2
+        else:
+            sub_cfg = cfg_of(self.model, f)
+        sub = Normalizer(self.model, f, sub_cfg, param_map=pm, inline_unique_methods=self.inline_unique_methods, func_hook=self.func_hook)
         forms = set()
-        for n in sub_cfg.nodes:
+        for n in sub_cfg.live_nodes():
             if n.kind == 'return' and n.ast is not None and n.ast.value is not None:
                 forms.add(sub.expr(n.ast.value, n, None, depth + 1))
         if not forms:
@@ -587,6 +611,101 @@ class Normalizer:
         if isinstance(test, (ast.Name, ast.Attribute, ast.Subscript)):
             return f"TRUTHY({s})", True
         return s, True
+
+
+_CTX_BUSY: t.Set[str] = set()
+
+
+def _context_params(model: Model, func: FuncInfo, params: t.Sequence[str]) -> t.Dict[str, str]:
+    """Private helper methods are analysed in the context of their callers: a parameter that receives the same normal form
+    at every ``self.helper(...)`` call site of the class is named by that form (so the input value stays ``VAL`` inside an
+    extracted helper, whatever position it is passed in).  Parameters whose call sites disagree keep ``$name``."""
+    cache: t.Dict[str, t.Dict[str, str]] = model.__dict__.setdefault('_ctx_param_cache', {})
+    if func.qualname in cache:
+        return cache[func.qualname]
+    if func.qualname in _CTX_BUSY or func.cls is None:
+        return {}
+    _CTX_BUSY.add(func.qualname)
+    try:
+        from .cfg import cfg_of
+        forms: t.Dict[str, t.Set[str]] = {p: set() for p in params}
+        sites = 0
+        owners = [c for c in model.classes.values() if c is func.cls or model.is_subclass(c.qualname, func.cls.qualname)]
+        for c in owners:
+            for g in c.methods.values():
+                if g is func or not isinstance(g.node, ast.FunctionDef) or not g.params:
+                    continue
+                if model.find_method(c.qualname, func.name) is not func:
+                    continue
+                calls = [x for x in ast.walk(g.node) if isinstance(x, ast.Call) and isinstance(x.func, ast.Attribute)
+                         and x.func.attr == func.name and isinstance(x.func.value, ast.Name) and x.func.value.id == g.params[0]
+                         and model.enclosing_function(x) is g]
+                if not calls:
+                    continue
+                gcfg = cfg_of(model, g)
+                gnz = Normalizer(model, g, gcfg)
+                for call in calls:
+                    n = gcfg.node_of(call)
+                    if n is None or any(isinstance(a, ast.Starred) for a in call.args) or any(k.arg is None for k in call.keywords):
+                        continue
+                    sites += 1
+                    bound = {p: a for p, a in zip(params, call.args)}
+                    bound.update({k.arg: k.value for k in call.keywords if k.arg in forms})
+                    for p in params:
+                        if p in bound:
+                            forms[p].add(gnz.expr(bound[p], n))
+                        else:
+                            forms[p].add('?default')
+        out: t.Dict[str, str] = {}
+        if sites:
+            for i, p in enumerate(params):
+                fs = forms[p]
+                if len(fs) == 1 and '?default' not in fs:
+                    out[p] = next(iter(fs))
+                else:
+                    out[p] = f'${p}'
+        cache[func.qualname] = out
+        return out
+    finally:
+        _CTX_BUSY.discard(func.qualname)
+
+
+def _split_tuple_text(s: str) -> t.Optional[t.List[str]]:
+    """Elements of a normal form that is a parenthesised tuple display `(a, b, ...)`, else None."""
+    if not (s.startswith('(') and s.endswith(')')):
+        return None
+    depth = 0
+    parts: t.List[str] = []
+    cur = ''
+    quote: t.Optional[str] = None
+    for i, ch in enumerate(s[1:-1]):
+        if quote:
+            cur += ch
+            if ch == quote:
+                quote = None
+            continue
+        if ch in '\'"':
+            quote = ch
+            cur += ch
+            continue
+        if ch in '([{':
+            depth += 1
+        elif ch in ')]}':
+            depth -= 1
+            if depth < 0:
+                return None          # the outer parentheses do not match each other
+        if ch == ',' and depth == 0:
+            parts.append(cur.strip())
+            cur = ''
+        else:
+            cur += ch
+    if depth != 0 or quote:
+        return None
+    if cur.strip():
+        parts.append(cur.strip())
+    elif not parts:
+        return None
+    return parts if (len(parts) > 1 or s[1:-1].rstrip().endswith(',')) else None
 
 
 def _sfx(p: t.Sequence[int]) -> str:
